@@ -18,6 +18,7 @@ import (
 	"path/filepath"
 	"runtime"
 	"sort"
+	"strconv"
 	"strings"
 	"sync/atomic"
 	"time"
@@ -399,16 +400,16 @@ type c11Item struct {
 // ---- receiver ---------------------------------------------------------------------------------
 
 type c11Eff struct {
-	key string
-	ann bool
+	key     string
+	ann     bool
+	classic bool // announced in the NLRI field (next hop = NEXT_HOP attribute)
+	fam     int  // family of the MP_REACH_NLRI that announced it
 }
 
 type c11Rx struct {
 	effs    []c11Eff
-	rec     c11Rec // of classic NLRI (NH from NEXT_HOP)
-	mpNH    map[int]string
-	mpFam   map[string]int // key -> family for announced MP routes (to pick the next hop)
-	classic map[string]bool
+	nh      string    // NEXT_HOP attribute value
+	mpNH    [3]string // next hop field of the MP_REACH_NLRI per family
 	attrs   string
 	eor     int // -1 none, else family
 	carrier string
@@ -484,14 +485,14 @@ func c11Receive(b []byte, cfg c11Cfg) (*c11Rx, error) {
 		return nil, fmt.Errorf("message type %d, not an UPDATE", m.Type)
 	}
 	u := m.Update
-	rx := &c11Rx{eor: -1, mpNH: map[int]string{}, mpFam: map[string]int{}, classic: map[string]bool{}}
+	rx := &c11Rx{eor: -1}
 	if u.WithdrawnLen == 0 && u.AttrsLen == 0 && u.NLRILen == 0 {
 		rx.eor = c11V4
 		rx.carrier = "eor"
 		return rx, nil
 	}
 	var blobs [][]byte
-	seen := map[uint8]bool{}
+	var seen [256]bool
 	nh := ""
 	for _, a := range u.Attrs {
 		if seen[a.Type] {
@@ -507,8 +508,9 @@ func c11Receive(b []byte, cfg c11Cfg) (*c11Rx, error) {
 		}
 	}
 	rx.attrs = c11Canon(blobs)
+	rx.nh = nh
 	for _, k := range c11PfxKeys(c11V4, u.Withdrawn, cfg.AddPath) {
-		rx.effs = append(rx.effs, c11Eff{k, false})
+		rx.effs = append(rx.effs, c11Eff{key: k})
 		rx.nW++
 	}
 	for _, r := range u.MPUnreach {
@@ -533,7 +535,7 @@ func c11Receive(b []byte, cfg c11Cfg) (*c11Rx, error) {
 			keys = c11PfxKeys(fam, r.Prefixes, cfg.AddPath)
 		}
 		for _, k := range keys {
-			rx.effs = append(rx.effs, c11Eff{k, false})
+			rx.effs = append(rx.effs, c11Eff{key: k})
 			rx.nW++
 		}
 		rx.carrier += "U"
@@ -543,10 +545,8 @@ func c11Receive(b []byte, cfg c11Cfg) (*c11Rx, error) {
 	}
 	if u.NLRILen > 0 {
 		rx.carrier += "n"
-		rx.rec = c11Rec{Attrs: rx.attrs, NH: nh}
 		for _, k := range c11PfxKeys(c11V4, u.NLRI, cfg.AddPath) {
-			rx.effs = append(rx.effs, c11Eff{k, true})
-			rx.classic[k] = true
+			rx.effs = append(rx.effs, c11Eff{key: k, ann: true, classic: true})
 			rx.nA++
 		}
 	}
@@ -581,8 +581,7 @@ func c11Receive(b []byte, cfg c11Cfg) (*c11Rx, error) {
 		}
 		rx.mpNH[fam] = mnh
 		for _, k := range keys {
-			rx.effs = append(rx.effs, c11Eff{k, true})
-			rx.mpFam[k] = fam
+			rx.effs = append(rx.effs, c11Eff{key: k, ann: true, fam: fam})
 			rx.nA++
 		}
 		rx.carrier += "R"
@@ -593,11 +592,11 @@ func c11Receive(b []byte, cfg c11Cfg) (*c11Rx, error) {
 	return rx, nil
 }
 
-func (rx *c11Rx) recOf(k string) c11Rec {
-	if rx.classic[k] {
-		return rx.rec
+func (rx *c11Rx) recOf(e int) c11Rec {
+	if rx.effs[e].classic {
+		return c11Rec{Attrs: rx.attrs, NH: rx.nh}
 	}
-	return c11Rec{Attrs: rx.attrs, NH: rx.mpNH[rx.mpFam[k]]}
+	return c11Rec{Attrs: rx.attrs, NH: rx.mpNH[rx.effs[e].fam]}
 }
 
 // ---- calling the code under test ---------------------------------------------------------------
@@ -707,6 +706,7 @@ func c11NewCtx(c *vr.Report) *c11Ctx { return &c11Ctx{Report: c, seen: map[strin
 
 type c11Touch struct {
 	msg int
+	eff int
 	ann bool
 }
 
@@ -844,12 +844,18 @@ func c11Check(c *c11Ctx, cfg c11Cfg, items []c11Item, replay func() any, logs fu
 			shape = append(shape, "E"+c11FamName[rx.eor])
 			continue
 		}
-		for _, e := range rx.effs {
-			touch[e.key] = append(touch[e.key], c11Touch{i, e.ann})
+		for ei, e := range rx.effs {
+			touch[e.key] = append(touch[e.key], c11Touch{i, ei, e.ann})
 		}
 		h := fnv.New32a()
 		h.Write([]byte(rx.attrs))
-		shape = append(shape, fmt.Sprintf("%s:%s:%d:%d:%x", c11FamName[rx.effs[0].key[0]], rx.carrier, rx.nW, rx.nA, h.Sum32()))
+		sh := make([]byte, 0, 40)
+		sh = append(sh, c11FamName[rx.effs[0].key[0]]...)
+		sh = append(append(sh, ':'), rx.carrier...)
+		sh = strconv.AppendInt(append(sh, ':'), int64(rx.nW), 10)
+		sh = strconv.AppendInt(append(sh, ':'), int64(rx.nA), 10)
+		sh = strconv.AppendUint(append(sh, ':'), uint64(h.Sum32()), 16)
+		shape = append(shape, string(sh))
 	}
 
 	// order-robustness: a receiver key touched by two messages of one call
@@ -892,7 +898,7 @@ func c11Check(c *c11Ctx, cfg c11Cfg, items []c11Item, replay func() any, logs fu
 		}
 		it := &items[i]
 		ts := touch[k]
-		name := c11KeyString(k, cfg.AddPath)
+		name := c11Lazy(func() string { return c11KeyString(k, cfg.AddPath) })
 		fam := c11FamName[it.Fam]
 		if oversize[k] {
 			switch {
@@ -923,7 +929,7 @@ func c11Check(c *c11Ctx, cfg c11Cfg, items []c11Item, replay func() any, logs fu
 			continue
 		}
 		if it.Kind == c11Ann {
-			got := rxs[last.msg].recOf(k)
+			got := rxs[last.msg].recOf(last.eff)
 			if got.Attrs != it.Rec.Attrs {
 				viol("wrong-attributes:"+fam, "%s is announced with attributes %x, its route has %x", name, got.Attrs, it.Rec.Attrs)
 			} else if got.NH != it.Rec.NH {
@@ -959,7 +965,7 @@ func c11Check(c *c11Ctx, cfg c11Cfg, items []c11Item, replay func() any, logs fu
 	// vacuity statistics
 	switch n := len(msgs); {
 	case n <= 5:
-		c.Outcome(fmt.Sprintf("messages=%d", n))
+		c.Outcome(c11MsgCount[n])
 	case n <= 50:
 		c.Outcome("messages=6..50")
 	default:
@@ -987,6 +993,13 @@ func c11Check(c *c11Ctx, cfg c11Cfg, items []c11Item, replay func() any, logs fu
 		c.NT(sb.String())
 	}
 }
+
+var c11MsgCount = []string{"messages=0", "messages=1", "messages=2", "messages=3", "messages=4", "messages=5"}
+
+// c11Lazy defers the rendering of a value to the moment a violation text is formatted.
+type c11Lazy func() string
+
+func (l c11Lazy) String() string { return l() }
 
 func c11b2i(b bool) int {
 	if b {
